@@ -726,3 +726,104 @@ pub fn gen_arbitrary(rng: &mut Rng, n_packets: usize, max_payload: usize, n_link
     }
     out
 }
+
+/// Well-framed stream with arbitrary header values whose payloads are sequences of 80-bit words
+/// laid out as the header's data format prescribes (format 0: 16-byte slots, format 2: 10-byte
+/// words + 0..15 bytes of 0xFF). Word IDs are drawn from the known ITS IDs (and, with
+/// `p_unknown_id` permille, other values except 0xFF); all other bytes are arbitrary.
+/// Returns the stream bytes. Used where the statement requires "payload layout agrees with the
+/// header's data format" (C03, C07, C12, C19).
+pub fn gen_framed_words(
+    rng: &mut Rng,
+    n_packets: usize,
+    max_words: usize,
+    n_links: usize,
+    p_unknown_id: u64,
+    sane_headers: bool,
+) -> Vec<u8> {
+    let mut out = Vec::new();
+    let n_links = n_links.max(1);
+    let links: Vec<u8> = (0..n_links).map(|_| rng.below(if sane_headers { 12 } else { 256 }) as u8).collect();
+    let fees: Vec<u16> = (0..n_links)
+        .map(|_| {
+            if sane_headers || rng.chance(1, 2) {
+                fee_id(rng.below(7) as u8, rng.below(48) as u8, rng.below(4) as u8)
+            } else {
+                rng.next_u32() as u16
+            }
+        })
+        .collect();
+    const SYS: [u8; 20] = [3, 4, 5, 6, 7, 8, 10, 15, 17, 18, 19, 32, 33, 34, 35, 36, 37, 38, 39, 255];
+    const KNOWN_IDS: [u8; 14] =
+        [0xE0, 0xE8, 0xE8, 0xF0, 0xF0, 0xE4, 0xF8, 0x20, 0x28, 0x43, 0x4B, 0x50, 0x5E, 0x46];
+    let version = if rng.chance(1, 2) { 6 } else { 7 };
+    let first_sys = if rng.chance(3, 4) { 0x20 } else { *rng.pick(&SYS) };
+    for i in 0..n_packets {
+        let li = rng.usize_below(n_links);
+        let df: u8 = if rng.chance(1, 2) { 0 } else { 2 };
+        let nwords = match rng.below(5) {
+            0 => 0,
+            1 => 1,
+            _ => rng.below(max_words as u64 + 1) as usize,
+        }
+        .min(if df == 0 { 620 } else { 990 }); // payload <= 10000 bytes (framing limit)
+        let mut payload = Vec::new();
+        for wi in 0..nwords {
+            let mut w = [0u8; 10];
+            rng.fill(&mut w);
+            w[9] = if rng.chance(p_unknown_id, 1000) {
+                loop {
+                    let id = rng.below(255) as u8; // never 0xFF
+                    if crate::words::kind_of_id(id) == Kind::Unknown {
+                        break id;
+                    }
+                }
+            } else {
+                *rng.pick(&KNOWN_IDS)
+            };
+            if df != 0 && wi == 1 {
+                // keep the tool's layout detection (bytes 10..15 of the payload all zero => format 0)
+                // in agreement with the header: make sure they are not all zero
+                if w[0..6].iter().all(|&b| b == 0) {
+                    w[0] = 1;
+                }
+            }
+            payload.extend_from_slice(&w);
+            if df == 0 {
+                payload.extend_from_slice(&[0u8; 6]);
+            }
+        }
+        if df != 0 {
+            let pad = if rng.chance(1, 2) { (16 - payload.len() % 16) % 16 } else { rng.below(16) as usize };
+            // a 10-byte payload followed by exactly 6 bytes that are not zero is fine (0xFF)
+            payload.extend(std::iter::repeat(0xFF).take(pad));
+        }
+        let mut b = [0u8; 64];
+        rng.fill(&mut b);
+        let mut r = Rdh::from_bytes(&b);
+        r.link_id = links[li];
+        r.fee_id = fees[li];
+        r.data_format = df;
+        r.memory_size = (64 + payload.len()) as u16;
+        r.offset_next = r.memory_size;
+        r.system_id = if sane_headers { first_sys } else { *rng.pick(&SYS) };
+        if sane_headers || rng.chance(1, 2) {
+            r.version = version;
+            r.header_size = 0x40;
+            r.priority = 0;
+            r.rdh0_reserved = 0;
+            r.stop_bit = rng.below(2) as u8;
+        }
+        if i == 0 {
+            r.version = version;
+            r.header_size = 0x40;
+            r.priority = 0;
+            r.rdh0_reserved = 0;
+            r.fee_id = fee_id(rng.below(7) as u8, rng.below(48) as u8, rng.below(4) as u8);
+            r.system_id = first_sys;
+        }
+        out.extend_from_slice(&r.to_bytes());
+        out.extend_from_slice(&payload);
+    }
+    out
+}
